@@ -88,3 +88,17 @@ VARIANTS += [
     V("additive-bridge-dense-output", CORE + "base_solver.py", "            ys.append(interp.linear_interp(t0=prev_t, y0=prev_y, t1=curr_t, y1=curr_y, t=out_t))",
       "            out_y = interp.linear_interp(t0=prev_t, y0=prev_y, t1=curr_t, y1=curr_y, t=out_t)\n            if self.sde.noise_type == NOISE_TYPES.additive and prev_t < out_t < curr_t:\n                theta = (out_t - prev_t) / (curr_t - prev_t)\n                bridge = self.bm(prev_t, out_t) - theta * self.bm(prev_t, curr_t)\n                out_y = out_y + self.sde.g_prod(prev_t, prev_y, bridge)\n            ys.append(out_y)", rule="R12.4"),
 ]
+
+TSCONV = "ts = torch.tensor(ts, dtype=y0.dtype, device=y0.device)"
+VARIANTS += [
+    # round-5 C13 seed: the list is first held in torch's default dtype
+    V("ts-through-default-dtype", CORE + "sdeint.py", TSCONV, "ts = torch.tensor(ts).to(y0)", rule="R12.5"),
+    V("ts-as-tensor-default-then-type-as", CORE + "sdeint.py", TSCONV, "ts = torch.as_tensor(ts).type_as(y0)", rule="R12.5"),
+    V("ts-float32-then-y0", CORE + "sdeint.py", TSCONV, "ts = torch.tensor(ts, dtype=torch.float32).to(y0)", rule="R12.5"),
+    V("ts-wrong-device", CORE + "sdeint.py", TSCONV, "ts = torch.tensor(ts, dtype=y0.dtype)", rule="R12.5"),
+    # other spellings of the same conversion
+    V("twin-ts-dtype-then-device", CORE + "sdeint.py", TSCONV, "ts = torch.tensor(ts, dtype=y0.dtype).to(y0.device)", expect="silent"),
+    V("twin-ts-float64-then-y0", CORE + "sdeint.py", TSCONV, "ts = torch.tensor(ts, dtype=torch.float64).to(y0)", expect="silent"),
+    V("twin-ts-as-tensor", CORE + "sdeint.py", TSCONV, "ts = torch.as_tensor(ts, dtype=y0.dtype, device=y0.device)", expect="silent"),
+    V("twin-ts-to-keywords", CORE + "sdeint.py", TSCONV, "ts = torch.tensor(ts, dtype=torch.float64).to(dtype=y0.dtype, device=y0.device)", expect="silent"),
+]
